@@ -224,6 +224,28 @@ def run(ctx: Ctx, tier: str) -> Result:
     else:
         res.fail(Finding("C10.SCOPE", gf[0].qname, "<eval_watch(field_name)>", gf[0].loc(), "log fields are not evaluated through eval_watch with the field text"))
 
+    # evaluate_expression hands out the value (not the success flag) of the tagged evaluation
+    evx = [f for f in api if f.name == "evaluate_expression"]
+    tryx = [f for f in api if f.name == "try_evaluate_expression"]
+    if evx and tryx:
+        rr_ = [r for r in t.nodes_in(evx[0], ast.Return) if r.value is not None]
+        okv = len(rr_) == 1 and isinstance(rr_[0].value, ast.Subscript) and norm(rr_[0].value.slice) == "1" and isinstance(rr_[0].value.value, ast.Call) \
+            and tryx[0] in t.resolve_call(rr_[0].value.value, evx[0]).repo and [norm(a_) for a_ in rr_[0].value.value.args] == [evx[0].params[1]]
+        if okv:
+            res.ok("C10.SCOPE", {"evaluate_expression": "value part of try_evaluate_expression(expression)"})
+        else:
+            res.fail(Finding("C10.SCOPE", evx[0].qname, rr_[0] if rr_ else "<return try_evaluate_expression(expression)[1]>", evx[0].loc(),
+                             "evaluate_expression does not return the value of evaluating its own expression (metric values and labels are taken from it)"))
+    # every way out of eval_watch is (watch result, variables, text): a failing watch is an error *result*, never a failing snapshot
+    ewf = p.func(AC + ".eval_watch")
+    for r in [r for r in t.nodes_in(ewf, ast.Return)]:
+        v = r.value
+        okr = isinstance(v, ast.Tuple) and len(v.elts) == 3 and isinstance(v.elts[0], ast.Call) and any(k.name == "WatchResult" for k in t.resolve_call(v.elts[0], ewf).ctor)
+        if okr:
+            res.ok("C10.CONTAIN", {"eval_watch returns a result triple": ewf.loc(r)})
+        else:
+            res.fail(Finding("C10.CONTAIN", ewf.qname, r, ewf.loc(r), "eval_watch does not return (WatchResult, variables, text) on this path: the caller fails and the whole snapshot / log line is lost"))
+
     # ---------------- CONTAIN
     ct = g.catching_try(ecall, ev, "BaseException")
     if ct is None:
